@@ -3,7 +3,24 @@
 #include <stdio.h>
 #include <stdlib.h>
 #include <string.h>
+#include <sys/wait.h>
+#include <unistd.h>
 int main(int argc, char **argv) {
+  /* $STUB_CHILD: run that shell command as a child (the stub stays its parent process, so that the
+   * child sees e.g. "git log -p" as the command that called it) and exit with its status. */
+  const char *child = getenv("STUB_CHILD");
+  if (child) {
+    char *cmd = strdup(child);
+    unsetenv("STUB_CHILD");
+    pid_t pid = fork();
+    if (pid == 0) {
+      execl("/bin/sh", "sh", "-c", cmd, (char *)0);
+      _exit(127);
+    }
+    int st = 0;
+    waitpid(pid, &st, 0);
+    return WIFEXITED(st) ? WEXITSTATUS(st) : 128;
+  }
   const char *log = getenv("STUB_LOG");
   if (log) {
     FILE *f = fopen(log, "a");
